@@ -9,9 +9,17 @@
 3. Scale + history (kind "scale" of LayoutDecode_Trace): a few sampled pages beyond the bounded spaces (300 / 523 / 1040 ridges in one
    column, map rows / columns > 32767 and > 65535, coordinates > 65535, heights > 255 map px) through ONE long-lived LayoutEngine, some after a
    call that raises half-way, the first page once more at the end; TLC judges every ridge of every page by the same LineMatches.
+4. Several engines in one process (round 9, constant Hists of LayoutDecode.tla): the sloped-ridges space is also explored with
+   hist > 0 = ANOTHER LayoutEngine with other constructor parameters (LayoutDecode!OtherEngines; wide connection range, strict threshold,
+   ...) is built by the real constructor next to the default engine and parses a page first, in a process whose first parse() this is
+   (K.run_history_cases, forked before the driver executes any other pero_ocr code); the verdict clauses do not depend on hist.
+   Self-test: Variant "shared" (parse() works with what the other engine left behind) must violate OnePerRidge.
 NOT covered: smoothing / NMS / percentiles on arbitrary real-valued maps, sloped ridges, clustering (see notes/C18.md).
 """
+import os
 import re
+import sys
+import time
 
 from .. import layoutdecode_common as K
 from ..core import pmap, MachineryFailure
@@ -20,7 +28,7 @@ LEVEL = "model_checking"
 
 PIX_CLAUSES = {1: "exception", 2: "rot90-not-the-modelled-bijection", 3: "regions-not-within-1px", 4: "baselines-not-within-1px",
                5: "outlines-not-within-1px", 6: "exact-rotate-layout"}
-RIDGE_CLAUSES = {7: "detect-vs-repeated-parse-of-same-maps-not-within-1px", 1: "exception", 2: "line-count", 3: "line-position-or-heights", 4: "regions", 5: "exact-network-saw-rotated-page",
+RIDGE_CLAUSES = {7: "detect-vs-repeated-parse-of-same-maps-not-within-1px", 9: "history-binding", 1: "exception", 2: "line-count", 3: "line-position-or-heights", 4: "regions", 5: "exact-network-saw-rotated-page",
                  6: "exact-end-points"}
 
 
@@ -54,6 +62,9 @@ def selftests(ctx, mh, mw, rb):
             expect_violation="BackToOriginal", label="LayoutDecode ridges Variant=shape1", coverage=False)
     ctx.tlc("LayoutDecode", constants=K.tla_constants(small, "ridges", "nods"), invariants=["ScaledByDs"], workers=2,
             expect_violation="ScaledByDs", label="LayoutDecode ridges Variant=nods", coverage=False)
+    shared = dict(rb, Dss=[2], Rows=[8, 24], X0s=[3], Lens=[30], Hists=[0, 1, 2, 3])
+    ctx.tlc("LayoutDecode", constants=K.tla_constants(shared, "ridges", "shared"), invariants=["OnePerRidge"], workers=2,
+            expect_violation="OnePerRidge", label="LayoutDecode ridges Variant=shared", coverage=False)
 
 
 def signature(tr, prog):
@@ -61,6 +72,8 @@ def signature(tr, prog):
     name = table.get(prog - 10, "step%d" % prog)
     if tr["outcome"] != "ok":
         name = tr["outcome"]
+    if tr.get("hist", 0):            # another engine (constructor parameters OtherEngines[hist]) parsed before in the same process
+        return "%s:%s:after-engine-%d" % (tr["mode"], name, tr["hist"])
     if tr["mode"] == "scale":        # class of the page: through detect or parse alone, more than 255 ridges or a long / tall one
         return "scale:%s:%s:%s" % (name, tr["via"], "many-ridges" if len(tr["ridges"]) > 255 else "few-large-ridges")
     return "%s:%s:rot%d" % (tr["mode"], name, tr["k"])
@@ -74,7 +87,8 @@ def describe(tr):
             tr["via"], " (page decoded a second time)" if tr.get("again") else "", tr["k"], tr["ds"], tr["ep"], tr["mh"], tr["mw"],
             len(tr["ridges"]), tr["ridges"][0]["y"], tr["ridges"][-1]["y"], min(r["x0"] for r in tr["ridges"]),
             max(r["x1"] for r in tr["ridges"]), len(tr["lines"]), [(l["pts"][0], l["pts"][-1], l["h"]) for l in tr["lines"]][:2])
-    return "rot=%d ds=%d endpoints=%s ridges=%s -> %d lines %s" % (
+    return "%srot=%d ds=%d endpoints=%s ridges=%s -> %d lines %s" % (
+        ("default LayoutEngine after another engine of the same process (%s) parsed a page: " % (tr.get("other"),)) if tr.get("hist", 0) else "",
         tr["k"], tr["ds"], tr["ep"], [(r["y"], r["x0"], r["x1"], r.get("dy", 0)) for r in tr["ridges"]], len(tr["lines"]),
         [(l["pts"][0], l["pts"][-1], l["h"]) for l in tr["lines"]][:3])
 
@@ -87,6 +101,8 @@ def judge(ctx, name, consts, cases, traces, exact=True):
     for i, prog in rej:
         if traces[i]["mode"] == "scale" and prog == 19:
             raise MachineryFailure("C18 scale: the sampled page %r is outside the scope of the statement (ScaleInScope)" % (cases[i],))
+        if traces[i]["mode"] == "ridges" and prog == 19:
+            raise MachineryFailure("C18 ridges: the other engine of %r is not LayoutDecode!OtherEngines[hist] (HistBound)" % (cases[i],))
         ctx.violation({"space": name, "consts": _plain(consts), "case": cases[i]}, signature(traces[i], prog),
                       "clause %s fails; %s" % (signature(traces[i], prog), describe(traces[i])))
     if not exact:                      # (no detailed model of the sampled large pages)
@@ -121,8 +137,20 @@ def run(ctx):
                "ridge length >= 6 map px without end-point responses, >= 10 with them (the responses erase two pixels at each end)",
                "tolerances: end points 3 map px + 1 px, row 1 map px + 1 px, heights 1 % of a map pixel, regions 6 px",
                "scale: sampled pages only (6 pages + 1 repeated in the quick tier), ridges flat, one column; one LayoutEngine object for all of them",
-               "LayoutEngine built with __new__ and the constructor's default parameters; np.random seeded (tie-breaker of the left-to-right sort)")
+               "LayoutEngine built with __new__ and the constructor's default parameters; np.random seeded (tie-breaker of the left-to-right sort)",
+               "several engines in one process: sloped-ridges space only; the default engine and one other engine (LayoutDecode!OtherEngines) from "
+               "the real constructor with PageParser's keyword arguments (network class stubbed); only the DEFAULT engine's result is judged; "
+               "an engine whose attributes are changed after construction is not exercised (outside the statement)")
     selftests(ctx, mh, mw, rb)
+    # ---- several engines in one process: the configurations of the sloped-ridges space with hist > 0, executed FIRST (forked children of
+    # a process that has not run any pero_ocr code yet, one per value of hist); judged below together with the rest of that space
+    sloped = K.ridge_bounds(Dss=[1, 2] if ctx.tier == "quick" else [1, 2, 4], Rows=[8, 24], X0s=[3], Lens=[0, 58], Dys=[0, 18],
+                            Hists=[0, 1, 2] if ctx.tier == "quick" else [0, 1, 2, 3])
+    sloped_cases = K.enumerate_ridge_cases(sloped)
+    hist_idx = [i for i, c in enumerate(sloped_cases) if c["hist"] > 0]
+    t_hist = time.time()
+    hist_traces = dict(zip(hist_idx, K.run_history_cases([sloped_cases[i] for i in hist_idx])))
+    ctx.notes["several_engines"] = "%d configurations with another engine in the process, executed in %.1f s" % (len(hist_idx), time.time() - t_hist)
     # ---- pixels
     pc = K.tla_constants(rb, "pixels", "ok", mh, mw)
     res = ctx.tlc("LayoutDecode", constants=pc, invariants=["RotIsBijection", "BackWithinOnePixel"], workers=4, label="LayoutDecode pixels",
@@ -143,22 +171,29 @@ def run(ctx):
         ctx.selftest_corrupt("LayoutDecode_Trace", good, corrupt, constants=dict(pc, Level="property"))
     # ---- ridges: flat ridges of the main space, then long parallel SLOPED ridges whose rise (18 map px) exceeds the spacing of
     # the rows (16), so that the bounding boxes of neighbouring ridges overlap
-    sloped = K.ridge_bounds(Dss=[1, 2] if ctx.tier == "quick" else [1, 2, 4], Rows=[8, 24], X0s=[3], Lens=[0, 58], Dys=[0, 18])
     for sname, space in (("ridges", rb), ("sloped-ridges", sloped)):
         rc = K.tla_constants(space, "ridges", "ok")
         res = ctx.tlc("LayoutDecode", constants=rc, invariants=["OnePerRidge", "ScaledByDs", "BackToOriginal", "InsideOriginal"], workers=4,
                       label="LayoutDecode " + sname)
-        cases = K.enumerate_ridge_cases(space)
+        cases = K.enumerate_ridge_cases(space) if space is not sloped else sloped_cases
         if _init_count(res) != len(cases):
             raise MachineryFailure("C18 %s: TLC explored %d configurations, the driver %d" % (sname, _init_count(res), len(cases)))
-        traces = pmap(K.run_case, cases, procs=6)
+        plain = [i for i, c in enumerate(cases) if c["hist"] == 0]
+        traces = [None] * len(cases)
+        for i, tr in zip(plain, pmap(K.run_case, [cases[i] for i in plain], procs=6)):
+            traces[i] = tr
+        if space is sloped:
+            for i, tr in hist_traces.items():
+                traces[i] = tr
         judge(ctx, sname, rc, cases, traces)
         for c in cases:
-            ctx.count(1, (sname, c["k"], c["ds"], c["ep"], c["rm"], tuple((r["y"], r["x0"], r["x1"], r["dy"]) for r in c["ridges"]))
-                      if c["k"] > 0 else None)
+            ctx.count(1, (sname, c["k"], c["ds"], c["ep"], c["rm"], c["hist"], tuple((r["y"], r["x0"], r["x1"], r["dy"]) for r in c["ridges"]))
+                      if c["k"] > 0 or c["hist"] > 0 else None)
     rc = K.tla_constants(rb, "ridges", "ok")
     run_scale(ctx, rc)
     ctx.sample({"space": "ridges", "trace": traces[len(traces) // 2]}, limit=4)
+    if os.environ.get("C18_TIMING"):
+        sys.stderr.write("%s\n%s\n" % (ctx.notes["several_engines"], "\n".join("%6.1f s  %s" % (r.get("wall_s", -1), r.get("label")) for r in ctx.tlc_runs)))
     ctx.notes["explanation"] = ("TLC exhaustive on LayoutDecode.tla (pixels: RotIsBijection, BackWithinOnePixel; ridges: OnePerRidge, ScaledByDs, "
                                 "BackToOriginal, InsideOriginal); the same pages and ridge configurations executed by np.rot90 inside "
                                 "LayoutEngine.detect, LayoutEngine.rotate_layout and LayoutEngine.detect with a stub network, validated by "
